@@ -265,6 +265,46 @@ macro_rules! rlp_family {
         }
     };
 }
+
+/// the 55/56-byte boundary between RLP's short and long string headers, on CONCRETE values 2^k at 512 bits
+/// (k = 439: 55 payload bytes, header 0xb7; k = 440: 56 bytes, header 0xb8 0x38; k = 511: 64 bytes, header 0xb8 0x40)
+macro_rules! rlp_long_family {
+    ($body:ident, $krate:ident) => {
+        fn $body() {
+            use $krate::{Decodable, Encodable};
+            let ks = [439usize, 440, 447, 448, 511];
+            let mut i = 0;
+            while i < ks.len() {
+                let k = ks[i];
+                let mut limbs = [0u64; 8];
+                limbs[k / 64] = 1u64 << (k % 64);
+                let x = Uint::<512, 8>::from_limbs(limbs);
+                let n = k / 8 + 1;                       // payload bytes
+                let mut want = [0u8; 80];
+                let hdr = if n <= 55 { want[0] = 0x80 + n as u8; 1 } else { want[0] = 0xb8; want[1] = n as u8; 2 };
+                want[hdr] = 1u8 << (k % 8);
+                let total = hdr + n;
+                let mut buf = [0u8; 80];
+                let mut s: &mut [u8] = &mut buf[..];
+                x.encode(&mut s);
+                let got = 80 - s.len();
+                assert!(got == total, "rlp long header: number of bytes produced");
+                let mut j = 0;
+                while j < 80 { assert!(buf[j] == want[j], "rlp long header: bytes equal the reference"); j += 1; }
+                assert!(x.length() == total, "rlp long header: length() == bytes produced");
+                let mut r: &[u8] = &buf[..got];
+                match okf(<Uint<512, 8> as Decodable>::decode(&mut r)) {
+                    Some(y) => assert!(ueq(x, y) && r.len() == 0, "rlp long header: round trip"),
+                    None => assert!(false, "rlp long header: round trip decodes"),
+                }
+                i += 1;
+            }
+        }
+    };
+}
+rlp_long_family!(alloy_long, alloy_rlp);
+rlp_long_family!(frlp3_long, fastrlp_03);
+rlp_long_family!(frlp4_long, fastrlp_04);
 rlp_family!(alloy, alloy_limbs, alloy_prim64, alloy_prim128, alloy_rlp);
 rlp_family!(frlp3, frlp3_limbs, frlp3_prim64, frlp3_prim128, fastrlp_03);
 rlp_family!(frlp4, frlp4_limbs, frlp4_prim64, frlp4_prim128, fastrlp_04);
@@ -736,6 +776,9 @@ crate::harnesses! {
     #[cfg_attr(kani, kani::unwind(20))] fn c16_alloy_w128() { alloy::<128, 2>() }
     #[cfg_attr(kani, kani::unwind(28))] fn c16_alloy_w129() { alloy_limbs::<129, 3>() }
     #[cfg_attr(kani, kani::unwind(28))] fn c16_alloy_w192() { alloy_limbs::<192, 3>() }
+    #[cfg_attr(kani, kani::unwind(82))] fn c16_alloy_long_header_w512() { alloy_long() }
+    #[cfg_attr(kani, kani::unwind(82))] fn c16_frlp3_long_header_w512() { frlp3_long() }
+    #[cfg_attr(kani, kani::unwind(82))] fn c16_frlp4_long_header_w512() { frlp4_long() }
     #[cfg_attr(kani, kani::unwind(12))] fn c16_alloy_prim_w64() { alloy_prim64() }
     #[cfg_attr(kani, kani::unwind(20))] fn c16_alloy_prim_w128() { alloy_prim128() }
     #[cfg_attr(kani, kani::unwind(12))] fn c16_frlp3_w8() { frlp3::<8, 1>() }
